@@ -1086,6 +1086,14 @@ def oracle_accepts(a):
             return f"deserialize({s!r}, [{t}]) raised {type(e).__name__}"
         if not same_value(t, got, exp):
             return f"XSD-valid {t} lexical form {s!r} is read as {got!r}, XSD assigns {exp!r}"
+    # enumerations: a lexical form denotes the member whose value it equals in the
+    # value space of the members' datatype (white space collapsed first)
+    for t in a["types"]:
+        if isinstance(t, str):
+            continue
+        msg = _enum_accepts(t["enum"], s, kw, kwargs)
+        if msg:
+            return msg
     # priority: with the candidates sorted, the result comes from the first type (in documented order) that accepts on its own
     names = [t for t in a["types"] if isinstance(t, str) and t in DOC_PRIORITY]
     if len(names) >= 2 and len(names) == len(a["types"]):
@@ -1104,6 +1112,49 @@ def oracle_accepts(a):
                 continue
         if not _eq(got, exp):
             return f"candidates {names}: deserialize({s!r}) gives {got!r}, the documented priority order gives {exp!r}"
+    return None
+
+
+def _enum_accepts(members, s, kw, kwargs):
+    kinds = {m["t"] for m in members}
+    if len(kinds) != 1:
+        return None
+    kind = kinds.pop()
+    c = collapse(s)
+    exp = None
+    if kind == "str":
+        vals = [m["v"] for m in members]
+        if any(v != collapse(v) for v in vals):
+            return None  # white-space-significant values: finding C05-enum-str-whitespace
+        if c in vals and s.strip() == s.strip(XSD_WS):
+            exp = vals.index(c)
+    elif kind in ("int", "dec", "float", "bool"):
+        t = {"int": "int", "dec": "Decimal", "float": "float", "bool": "bool"}[kind]
+        valid, v = xsd_value(t, s, kw)
+        if not valid:
+            return None
+        for i, m in enumerate(members):
+            mv = dec_atom(m)
+            if kind == "dec":
+                hit = mv.is_finite() and Fraction(mv) == v
+            elif kind == "float":
+                hit = (v == "nan" and math.isnan(mv)) or (v != "nan" and mv == v)
+            else:
+                hit = mv == v
+            if hit:
+                exp = i
+                break
+    if exp is None:
+        return None
+    cls = make_enum(members)
+    try:
+        got = converter.deserialize(s, [cls], **kwargs)
+    except ConverterError:
+        return f"enumeration {[dec_atom(m) for m in members]!r}: lexical form {s!r} of member #{exp} is rejected"
+    except Exception as e:  # noqa: BLE001
+        return f"enumeration {[dec_atom(m) for m in members]!r}: deserialize({s!r}) raised {type(e).__name__}"
+    if got is not list(cls)[exp]:
+        return f"enumeration {[dec_atom(m) for m in members]!r}: {s!r} is read as {got!r}, expected member #{exp}"
     return None
 
 
@@ -1270,6 +1321,35 @@ def oracle_test(a):
     return None
 
 
+def oracle_registry(a):
+    """documented lookup rule: the class itself, else the first registered class among
+    all but the last MRO entries; ConverterError when there is none"""
+    cls = CLASSES[a["cls"]]
+    reg = converter.registry
+    exp = None
+    for c in cls.__mro__[:-1] if len(cls.__mro__) > 1 else cls.__mro__:
+        if c in reg:
+            exp = reg[c]
+            break
+    if cls in reg:
+        exp = reg[cls]
+    try:
+        got = converter.type_converter(cls)
+    except ConverterError:
+        got = None
+    if got is not exp:
+        return f"type_converter({cls.__name__}) = {type(got).__name__ if got else 'ConverterError'}, documented rule gives {type(exp).__name__ if exp else 'ConverterError'}"
+    # consequence for values: a class without converter cannot be a silent str
+    if exp is None:
+        try:
+            v = converter.deserialize("1", [cls, int])
+        except ConverterError:
+            return "deserialize('1', [unregistered, int]) raised"
+        if v != 1 or type(v) is not int:
+            return f"deserialize('1', [{cls.__name__}, int]) = {v!r}"
+    return None
+
+
 def oracle_helpers(a):
     """build_qname / split_qname are inverse on well-formed parts; is_ncname agrees with XML NCName"""
     s = a.get("s")
@@ -1409,6 +1489,7 @@ ORACLES = [
     Oracle("c05.test_strict", gen_test, oracle_test, from_ops=("conv.test",)),
     Oracle("c05.sort", gen_sort, oracle_sort, from_ops=("conv.sort",)),
     Oracle("c05.from_value", gen_from_value, oracle_from_value, from_ops=("conv.from_value",)),
+    Oracle("c05.registry", gen_type_converter, oracle_registry, from_ops=("conv.type_converter",)),
     Oracle("c05.helpers", gen_o_helpers, oracle_helpers, covered=covered_helpers, from_ops=("ns.is_ncname", "ns.split_qname")),
 ]
 
